@@ -1,7 +1,7 @@
 """C06  Every acknowledgement written is itself a complete, well-formed interchange."""
 import io
 
-from .. import core, docgen, observe, x12ref, envmodel, mapmodel as mm
+from .. import core, docgen, faults, observe, x12ref, envmodel, mapmodel as mm
 from . import genfaulty, c05, c15
 
 PID = 'C06'
@@ -92,6 +92,9 @@ def _check_case(case):
         out.classes.append('hostile-echo')
     if meta.get('ta1'):
         out.classes.append('ta1-requested')
+    for k_ in ('flood', 'empty-gs06'):
+        if meta.get(k_):
+            out.classes.append(k_)
     out.key = text
     if o.exc is not None:
         out.classes.append('validation-raised')
@@ -135,6 +138,18 @@ def _check_case(case):
     k3codes = c05.IK3_CODES if is999 else c05.AK3_CODES
     k4codes = c05.IK4_CODES if is999 else c05.AK4_CODES
     exp4 = [e for e in o.errors if e['level'] == 'ele' and e['code'] in k4codes]
+    if not is999:
+        # an AK3 of the 997 takes 99 AK4 at most: the first 99 of a segment are itemised
+        seen_ = {}
+        kept_ = []
+        for e in exp4:
+            k_ = (e['isa'], e['gs'], e['st'], e['pos'])
+            seen_[k_] = seen_.get(k_, 0) + 1
+            if seen_[k_] <= 99:
+                kept_.append(e)
+        if len(kept_) != len(exp4):
+            out.classes.append('more-than-99-element-errors-on-a-segment')
+        exp4 = kept_
     got4 = [s for s in segs if s.id in ('AK4', 'IK4')]
     if len(got4) != len(exp4):
         out.fail('item-count:K4', '%d AK4/IK4 segments, error tree has %d codable element errors' % (len(got4), len(exp4)))
@@ -179,6 +194,36 @@ def _check_case(case):
     return out
 
 
+def flood(doc):
+    """every element and component of the widest body segment gets a value that is too long and of the wrong class: a hundred
+    and more element errors on one segment (only the leading qualifier stays, so that the segment is still located)"""
+    def errs(x):
+        # errors a too-long lower-case value draws: not used -> 1; too long, plus code list / number / date / time -> 2
+        if x.usage == 'N':
+            return 1
+        return 2 if (x.dtype == 'ID' and (x.codes or x.ext)) or x.dtype in ('R', 'DT', 'TM', 'D8', 'D6', 'RD8') or x.dtype[0] == 'N' else 1
+    best = None
+    for s in doc.segs:
+        if s.id in faults.ENVELOPE or s.id in ('HL', 'LX'):
+            continue
+        n_ = sum(sum(errs(x) for x in c.children) if c.kind == 'comp' else errs(c) for c in s.node.children)
+        if n_ >= 100 and (best is None or n_ > best[0]):
+            best = (n_, s)
+    if best is None:
+        return False
+    s = best[1]
+    vals = []
+    for c in s.node.children:
+        if c.kind == 'comp':
+            vals.append(['q' * (min(x.maxl, 90) + 1) for x in c.children])
+        else:
+            vals.append(['q' * (min(c.maxl, 90) + 1)])
+    if s.vals and s.vals[0]:
+        vals[0][0] = s.vals[0][0]
+    s.vals = vals
+    return True
+
+
 def run_entry(entry, n, seed, acc, tier):
     from hypothesis import strategies as st
 
@@ -206,6 +251,16 @@ def run_entry(entry, n, seed, acc, tier):
         if mode == 'mixed-maps':
             meta['file'] = 'mixed'
             meta['parts'] = [e['file'] for e in doc.parts]
+        if mode == 'plain' and ch.chance(.5) and flood(doc):
+            meta['flood'] = True
+        if mode in ('plain', 'many-groups') and ch.chance(.12):
+            # the last group has no control number of its own to lend to the acknowledgement
+            gs = [x for x in doc.segs if x.id == 'GS']
+            ge = [x for x in doc.segs if x.id == 'GE']
+            if gs and ge and len(gs[-1].vals) > 5 and len(ge[-1].vals) > 1:
+                gs[-1].vals[5] = ['']
+                ge[-1].vals[1] = ['']
+                meta['empty-gs06'] = True
         if mode == 'ta1' or ch.chance(.15):
             for s in doc.segs:
                 if s.id == 'ISA':
